@@ -97,3 +97,7 @@ M("invmsym-bmv-factors-swapped", "bfgsmats.py", "        invMfactors[1],\n", "  
 # ---- finding 15 (pinned form): the plain unit step
 M("stepinit-plain-unit-step", "linesearch.py", "        steplength_0 = min(1.0, max_steplength)\n", "        steplength_0 = 1.0\n", ["STEPINIT"], canary=True,
   note="the tree as pinned before fix c03c79a")
+
+# ---- BFGSFORM: theta written for a rejected pair (round 5)
+M("bfgsform-stray-theta", "bfgsmats.py", "    is_current_update_accepted: bool = update_X_and_G(xk, gk, X, G, maxcor, eps)\n",
+  "    is_current_update_accepted: bool = update_X_and_G(xk, gk, X, G, maxcor, eps)\n    mats.theta = max(mats.theta, 1.0)\n", ["BFGSFORM"])
